@@ -89,7 +89,14 @@ func (e *Engine) verifyFunc(fn *ssa.Function, ct *Contract, slice map[string]boo
 	}
 	for _, ax := range e.specs.axioms {
 		if ax.inSlice(slice) {
-			vc.assume("true", te.formula(ax.E))
+			f := te.formula(ax.E)
+			if strings.Contains(f, "(forall ") {
+				// quantified axioms go through the relevance filter of queryFor: they are part of a query
+				// only when it mentions one of the symbols they are about
+				vc.global(f)
+			} else {
+				vc.assume("true", f)
+			}
 		}
 	}
 	results, final, retReach := vc.execFunc(fn, args, st, "true", 0, ct)
